@@ -136,6 +136,15 @@ theorem grid_next_is_later (cron : String) (p : Int) (t : Int) (hp : 0 < p) (h :
   rw [h1]
   omega
 
+/-- **F19 (known finding) as a statement about the model.**  What the lease sweep reads is a PREFIX, in the order (root promise
+    id, sort id), of the tasks that are enqueued / claimed and past their lease or timeout: a late task with at least `limit` late
+    tasks before it in that order is not in the batch — and when those are unclaimed tasks that are re-dispatched after every
+    reset and expire again one enqueue delay later, it never is. -/
+theorem lease_sweep_reads_a_prefix_in_root_order_F19 (d : Dialect) (db : Db) (c : ReadTasksCmd) (hs : c.states.isEmpty = false) :
+    db.exec (defs d) (.readTasks c) =
+      .ok (db, .tasks ((takeLimit c.limit ((db.tasks.filter (taskSelectAll_where c)).mergeSort taskOrdLe)).map taskSelectAll_proj)) := by
+  simp [Db.exec, hs, defs, taskSelectAll_limit]
+
 /-! ### tasks waiting to be dispatched -/
 
 /-- one dispatch cycle whose hand-offs all succeed moves every selected task out of `init`; C08.dispatch_selection says
